@@ -35,7 +35,7 @@ type FnResult struct {
 func newEnc(P *Program, fn *ssa.Function, c *Contract, W *World) *Enc {
 	return &Enc{P: P, W: W, fn: fn, C: c, vals: map[ssa.Value]Val{}, notes: map[string]bool{}, unmod: map[string]bool{},
 		externs: map[string]bool{}, inlines: map[string]bool{}, oblCount: map[string]int{}, writes: map[*ssa.BasicBlock]map[string]bool{},
-		specSigs: map[string]*specSig{}, inlineStack: map[*ssa.Function]bool{}, ranges: map[*ssa.Range]*rangeModel{}, lemmasUsed: map[string]bool{}, protected: map[*loopInfo][]*ssa.Range{}}
+		specSigs: map[string]*specSig{}, inlineStack: map[*ssa.Function]bool{}, ranges: map[*ssa.Range]*rangeModel{}, lemmasUsed: map[string]bool{}, protected: map[*loopInfo][]*ssa.Range{}, assertDone: map[*AssertAt]bool{}}
 }
 
 func (e *Enc) assumeAllocated(st *bstate, v Val) {
@@ -50,7 +50,10 @@ func (e *Enc) assumeAllocated(st *bstate, v Val) {
 	}
 	alloc := e.heapVar(st, e.allocComp())
 	switch types.Unalias(v.Typ).Underlying().(type) {
-	case *types.Pointer, *types.Map, *types.Chan:
+	case *types.Pointer:
+		e.W.needRoot()
+		e.assert(app("<=", app("root", v.T), alloc))
+	case *types.Map, *types.Chan:
 		e.assert(app("<=", v.T, alloc))
 	case *types.Slice:
 		e.assert(app("<=", app("sbase", v.T), alloc))
@@ -286,6 +289,11 @@ func verifyFunction(P *Program, key string, opts *runOpts) *FnResult {
 	sort.Strings(res.Inlines)
 	res.Errors = append(res.Errors, e.errors...)
 	if c != nil {
+		for _, a := range c.AssertsAt {
+			if !e.assertDone[a] {
+				res.Errors = append(res.Errors, fmt.Sprintf("%s: assert_at anchor %q matches no statement", a.Clause.Src, a.Anchor))
+			}
+		}
 		for ord := range c.Loops {
 			if ord >= res.Loops {
 				res.Errors = append(res.Errors, fmt.Sprintf("%s: contract mentions loop %d but function has %d loops", c.Src, ord, res.Loops))
